@@ -7,7 +7,7 @@
    For a scrape over [inv,res]: MUST = observations returned before inv, MAY = observations invoked before res.
    The boundary law (want_bucket / want_zero, exact dyadic comparison against the generated table) is C04's. *)
 From Coq Require Import ZArith List Bool.
-From Verif Require Import Base.F64 Base.Sx Model.NativeHist.
+From Verif Require Import Base.F64 Base.Str Base.Sx Base.Conc Model.NativeHist Model.NativeConc.
 Import ListNotations.
 Open Scope Z_scope.
 
@@ -88,7 +88,7 @@ Definition strict_ok (must may : list f64) (c : cexpo) : bool :=
   forallb (fun p => Z.leb (want_bucket must s z false (fst p)) (snd p) && Z.leb (snd p) (want_bucket may s z false (fst p))) (e_pos e) &&
   forallb (fun p => Z.leb (want_bucket must s z true (fst p)) (snd p) && Z.leb (snd p) (want_bucket may s z true (fst p))) (e_neg e).
 
-Definition check (s : sx) : Z :=
+Definition check_hist (s : sx) : Z :=
   match s with
   | SL [SZ kind; bounds; obs; scr; final; SZ flags] =>
       match dL dF bounds, dL d_obs obs, dL d_scrape scr, d_expo final with
@@ -108,7 +108,7 @@ Definition check (s : sx) : Z :=
   | _ => code_decode_error
   end.
 
-Definition explain (s : sx) : sx :=
+Definition explain_hist (s : sx) : sx :=
   match s with
   | SL [SZ kind; bounds; obs; scr; final; SZ flags] =>
       match dL dF bounds, dL d_obs obs, dL d_scrape scr, d_expo final with
@@ -121,4 +121,104 @@ Definition explain (s : sx) : sx :=
       | _, _, _, _ => SL []
       end
   | _ => SL []
+  end.
+
+(* ---- stream tie (kind 3): case = (3 cfg progs sched trace calls flags), cfg = (schema zero_threshold_option
+   max_buckets max_zero_threshold).  The step machine of Model/NativeConc.v (zmachine: integer counters) runs under
+   the SAME schedule as the real instrumented native-only histogram; every executed schedule point must carry the
+   same canonical label, every call must return at the same logical time with the same result (expositions are
+   compared on schema, zero threshold bits, zero count, sample count, sum bits - NaN = NaN - and the non-zero
+   populations).  Code 1 on any difference. *)
+Definition d_nop (s : sx) : option nop :=
+  match s with
+  | SL [SZ 0; v] => option_map NObserve (dF v)
+  | SL [SZ 1] => Some NWrite
+  | _ => None
+  end.
+Definition d_tcfg (s : sx) : option NativeHist.config :=
+  match s with
+  | SL [SZ sc; zt; SZ mb; mz] =>
+      match dF zt, dF mz with Some zt, Some mz => Some (NativeHist.mkConfig sc zt mb mz 0 (-1) 0) | _, _ => None end
+  | _ => None
+  end.
+Definition texpo := (Z * f64 * Z * Z * f64 * list (Z * Z) * list (Z * Z))%type.
+Definition d_tret (s : sx) : option (option texpo) :=
+  match s with
+  | SL [SZ 0] => Some None
+  | SL [SZ 1; SL [SZ sc; zt; SZ zc; SZ cnt; sm; pos; neg]] =>
+      match dF zt, dF sm, dL (dP dZ dZ) pos, dL (dP dZ dZ) neg with
+      | Some zt, Some sm, Some pos, Some neg => Some (Some (sc, zt, zc, cnt, sm, pos, neg))
+      | _, _, _, _ => None
+      end
+  | _ => None
+  end.
+Definition d_tcall (s : sx) : option (Z * Z * option texpo * Z * Z) :=
+  match s with
+  | SL [SZ t; SZ i; r; SZ a; SZ b] => option_map (fun r => (t, i, r, a, b)) (d_tret r)
+  | _ => None
+  end.
+Fixpoint trace_eqb (a b : list (Z * list Z)) : bool :=
+  match a, b with
+  | [], [] => true
+  | (t, l) :: a', (t', l') :: b' => Z.eqb t t' && str_eqb l l' && trace_eqb a' b'
+  | _, _ => false
+  end.
+Definition nz (l : list (Z * Z)) : list (Z * Z) := filter (fun p => negb (Z.eqb (snd p) 0)) l.
+Fixpoint pops_eqb (a b : list (Z * Z)) : bool :=
+  match a, b with
+  | [], [] => true
+  | p :: a', q :: b' => Z.eqb (fst p) (fst q) && Z.eqb (snd p) (snd q) && pops_eqb a' b'
+  | _, _ => false
+  end.
+Definition sum_eqb (a b : f64) : bool := fbits_eq a b || (is_nan a && is_nan b).
+Definition ret_agree (m : nret Z) (i : option texpo) : bool :=
+  match m, i with
+  | NUnit _, None => true
+  | NOut _ o, Some (sc, zt, zc, cnt, sm, pos, neg) =>
+      Z.eqb (no_sch Z o) sc && fbits_eq (no_zt Z o) zt && Z.eqb (no_zc Z o) zc && Z.eqb (no_count Z o) cnt &&
+      sum_eqb (no_sum Z o) sm && pops_eqb (nz (no_pos Z o)) (nz pos) && pops_eqb (nz (no_neg Z o)) (nz neg)
+  | _, _ => false
+  end.
+Definition tie_run (g : NativeHist.config) (progs : list (list nop)) (sched : list Z) : Conc.config zmachine :=
+  run_sched zmachine (init_config zmachine (ninit Z 0 g) progs) sched.
+Definition calls_agree (mh : list (call zmachine)) (ih : list (Z * Z * option texpo * Z * Z)) : bool :=
+  Nat.eqb (length mh) (length ih) &&
+  forallb (fun ic => let '(t, i, r, a, b) := ic in
+    existsb (fun c : call zmachine => Z.eqb (c_tid c) t && Z.eqb (c_idx c) i && ret_agree (c_ret c) r &&
+                                      Z.eqb (c_inv c) a && Z.eqb (c_res c) b) mh) ih.
+
+Definition check (s : sx) : Z :=
+  match s with
+  | SL [SZ 3; cfg; progs; sched; tr; calls; SZ flags] =>
+      match d_tcfg cfg, dL (dL d_nop) progs, dL dZ sched, dL (dP dZ dStr) tr, dL d_tcall calls with
+      | Some g, Some progs, Some sched, Some tr, Some calls =>
+          if negb (Z.eqb flags 0) then code_spec_violation
+          else
+            let c := tie_run g progs sched in
+            if all_done zmachine c && trace_eqb (trace c) tr && calls_agree (Conc.hist c) calls
+            then code_ok else code_model_mismatch
+      | _, _, _, _, _ => code_decode_error
+      end
+  | _ => check_hist s
+  end.
+
+Definition e_tret (r : nret Z) : sx :=
+  match r with
+  | NUnit _ => SL [SZ 0]
+  | NOut _ o => SL [SZ 1; SL [SZ (no_sch Z o); eF (no_zt Z o); SZ (no_zc Z o); SZ (no_count Z o); eF (no_sum Z o);
+                              eL (fun p => SL [SZ (fst p); SZ (snd p)]) (nz (no_pos Z o));
+                              eL (fun p => SL [SZ (fst p); SZ (snd p)]) (nz (no_neg Z o))]]
+  | NPanic _ => SL [SZ 2]
+  end.
+Definition explain (s : sx) : sx :=
+  match s with
+  | SL [SZ 3; cfg; progs; sched; tr; calls; SZ flags] =>
+      match d_tcfg cfg, dL (dL d_nop) progs, dL dZ sched with
+      | Some g, Some progs, Some sched =>
+          let c := tie_run g progs sched in
+          SL [eB (all_done zmachine c); eL (fun p => SL [SZ (fst p); eStr (snd p)]) (trace c);
+              eL (fun k : call zmachine => SL [SZ (c_tid k); SZ (c_idx k); e_tret (c_ret k); SZ (c_inv k); SZ (c_res k)]) (Conc.hist c)]
+      | _, _, _ => SL []
+      end
+  | _ => explain_hist s
   end.
